@@ -243,6 +243,9 @@ func leaf(m *Member, col string, d OpDesc, o int) (qframe.Filter, string) {
 		switch op {
 		case "in":
 			f.Comparator, f.Arg = "in", []int{c, c + 1}
+			if p(5)%3 == 0 {
+				f.Arg = []int{c, c, c + 1, c - 7}
+			}
 		case "fn":
 			f.Comparator = func(x int) bool { return x%2 == c%2 }
 		case "col":
@@ -295,6 +298,9 @@ func leaf(m *Member, col string, d OpDesc, o int) (qframe.Filter, string) {
 		switch op {
 		case "in":
 			f.Comparator, f.Arg = "in", []string{c, "b"}
+			if p(5)%3 == 0 {
+				f.Arg = []string{c, c, "b", "d"}
+			}
 		case "isnull", "isnotnull":
 			f.Comparator = op
 		case "fn":
@@ -469,14 +475,29 @@ func resolveFrame(w *World, d OpDesc, recv, other *Member, client int) *Exec {
 	case "select":
 		cols := subset(names, d, 0)
 		ex.Desc = fmt.Sprintf("%s.Select(%q)", id, cols)
-		ex.Run = func() *Outcome { return frameOutcome(f.Select(cols...), ex.Desc, client, false) }
+		ex.Run = func() *Outcome {
+			passed, check := guarded(cols)
+			out := frameOutcome(f.Select(passed...), ex.Desc, client, false)
+			out.ArgChanged = check()
+			return out
+		}
 	case "drop":
 		cols := subset(names, d, 1)
 		if len(cols) == len(names) && len(cols) > 0 {
 			cols = cols[1:]
 		}
+		if len(cols) > 0 && p(5)%3 == 0 {
+			// a name given twice, next to itself (dropping is idempotent)
+			k := p(6) % len(cols)
+			cols = append(append(append([]string{}, cols[:k+1]...), cols[k]), cols[k+1:]...)
+		}
 		ex.Desc = fmt.Sprintf("%s.Drop(%q)", id, cols)
-		ex.Run = func() *Outcome { return frameOutcome(f.Drop(cols...), ex.Desc, client, false) }
+		ex.Run = func() *Outcome {
+			passed, check := guarded(cols)
+			out := frameOutcome(f.Drop(passed...), ex.Desc, client, false)
+			out.ArgChanged = check()
+			return out
+		}
 	case "copy":
 		src := anyCol(0)
 		dst := []string{"cp", "cp2", anyCol(1)}[p(2)%3]
